@@ -23,7 +23,10 @@ Inductive vkind := KInt | KRange | KAny.          (* Int, Range(0, 50), Any *)
 Inductive rule := RSame | RExplicit (p : name) | RPrefix (p : name) | RClass.
 Inductive trait :=
 | Normal (k : vkind) (dflt : value)
-| Link                                             (* Instance(HasTraits): the delegate reference *)
+| Link                                             (* a delegate reference that holds an object: Instance(HasTraits)
+                                                      stored in the instance dict, or a Property over private
+                                                      storage (where it is stored is not observed; a reference that
+                                                      is itself a deferring attribute is simply a [Deleg]) *)
 | Deleg (d : name) (r : rule) (modify : bool)      (* modify = DelegatesTo, not modify = PrototypedFrom *)
 | PyAttr.                                          (* not declared: HasTraits' wildcard Python attribute
                                                       (never in a class table; only [walk] produces it) *)
